@@ -547,6 +547,9 @@ func (e *Engine) havocCall(st *State, name string, sig *types.Signature, call *a
 	}
 	if impure {
 		e.noteAssumption("call without contract treated as havoc (results arbitrary, heap forgotten): " + name)
+		if e.frame != nil && !e.frame.all {
+			e.oblige(st, "frame", "call of "+shortName(name)+" (no contract: may modify anything) stays within the modifies frame", tFalse, call.Pos(), nil)
+		}
 		e.havocHeap(st, "call")
 	} else {
 		e.noteAssumption("external call treated as side-effect free with arbitrary result: " + name)
@@ -698,7 +701,7 @@ func (e *Engine) evalBuiltin(st *State, call *ast.CallExpr, name string) Value {
 		}
 		// guard writes to block 0 (nil slice has length 0, so n == 0)
 		newArr := e.arrCopy(Sel(st.Mem, dst.blk), dst.off, srcArr, soff, n)
-		st.Mem = e.name("Mem", Sto(st.Mem, dst.blk, newArr))
+		e.memWrite(st, dst.blk, newArr, "the destination of copy")
 		return IntV{n}
 	case "append":
 		return e.evalAppend(st, call)
@@ -784,6 +787,11 @@ func (e *Engine) evalAppend(st *State, call *ast.CallExpr) Value {
 	// reallocating variant: old contents moved to offset 0, then the new elements
 	moved := e.arrCopy(T{"((as const (Array Int Int)) 0)", SArr}, I(0), Sel(st.Mem, s.blk), s.off, s.ln)
 	grown := e.arrCopy(moved, s.ln, srcArr, soff, n)
+	if e.specMode == 0 {
+		if g := e.frameAllowsBlk(s.blk); g.s != "true" {
+			e.oblige(st, "frame", "in-place append stays within the modifies frame", Implies(And(fits, Gt(n, I(0))), g), call.Pos(), nil)
+		}
+	}
 	mem := Ite(fits, Sto(st.Mem, s.blk, inPlace), Sto(st.Mem, newBlk, grown))
 	st.Mem = e.name("Mem", mem)
 	return SliceV{e.name("blk", Ite(fits, s.blk, newBlk)), e.name("off", Ite(fits, s.off, I(0))), newLen, e.name("cap", Ite(fits, s.cp, newCap))}
@@ -838,13 +846,16 @@ func (e *Engine) paramObjects(fc *FuncContract) []*types.Var {
 func (e *Engine) evalClauseValue(st *State, cl *Clause) Value {
 	savePkg := e.pkg
 	saveHoist := e.hoisted
+	saveMemo := e.clauseMemo
 	e.hoisted = nil
+	e.clauseMemo = map[string]Value{}
 	e.pkg = &pkgCtx{info: cl.info, pkg: savePkg.pkg}
 	e.specMode++
 	defer func() {
 		e.specMode--
 		e.pkg = savePkg
 		e.hoisted = saveHoist
+		e.clauseMemo = saveMemo
 	}()
 	return e.eval(st, cl.expr)
 }
@@ -875,9 +886,17 @@ func (e *Engine) callContract(st *State, fc *FuncContract, args []Value, call *a
 	}
 	if e.specMode == 0 {
 		for _, req := range fc.requires {
-			g := e.evalClause(st, req, env)
+			m := e.beginScope()
+			tmp := st.clone()
+			g := e.evalClause(tmp, req, env)
 			req.fired++
-			e.oblige(st, "pre", shortName(fc.key)+" requires "+req.text, g, call.Pos(), nil)
+			e.oblige(tmp, "pre", shortName(fc.key)+" requires "+req.text, g, call.Pos(), nil)
+			e.endScope(m)
+			// the caller continues under the (now proved) precondition; re-evaluated as an assumption below
+		}
+		for _, req := range fc.requires {
+			g := e.evalClause(st, req, env)
+			e.assume(st, g, "precondition of "+shortName(fc.key)+" (proved at this call)")
 		}
 	}
 	pre := st.clone()
@@ -885,6 +904,9 @@ func (e *Engine) callContract(st *State, fc *FuncContract, args []Value, call *a
 	defer func() { e.oldState = saveOld }()
 	if e.specMode == 0 {
 		if fc.modAll {
+			if e.frame != nil && !e.frame.all {
+				e.oblige(st, "frame", "call of "+shortName(fc.key)+" (modifies *) stays within the modifies frame", tFalse, call.Pos(), nil)
+			}
 			e.havocHeap(st, "call")
 		} else {
 			for _, m := range fc.modifies {
@@ -932,7 +954,7 @@ func (e *Engine) havocTarget(st *State, v Value, t types.Type, cl *Clause) {
 		}
 		n := e.cells(pt.Elem())
 		if _, isArr := under(pt.Elem()).(*types.Array); isArr {
-			st.Mem = e.name("Mem", Sto(st.Mem, x.t, e.fresh("havoc_arr", SArr)))
+			e.memWrite(st, x.t, e.fresh("havoc_arr", SArr), "a modifies target")
 			return
 		}
 		_ = n
@@ -940,7 +962,7 @@ func (e *Engine) havocTarget(st *State, v Value, t types.Type, cl *Clause) {
 		// array-typed fields own blocks at their cell address
 		e.havocArrayFields(st, x.t, pt.Elem())
 	case SliceV:
-		st.Mem = e.name("Mem", Sto(st.Mem, x.blk, e.fresh("havoc_arr", SArr)))
+		e.memWrite(st, x.blk, e.fresh("havoc_arr", SArr), "a modifies target")
 	default:
 		e.fail(cl.expr, "unsupported modifies target %T", v)
 	}
@@ -960,6 +982,7 @@ func (e *Engine) havocCells(st *State, base T, t types.Type, key string) {
 			off += e.cells(ft)
 		}
 	default:
+		e.checkCellWrite(st, base, "a modifies target")
 		h := e.heapGet(st, key)
 		for i := 0; i < e.cells(t); i++ {
 			h = Sto(h, Add(base, I(int64(i))), e.fresh("hv", SInt))
@@ -971,7 +994,7 @@ func (e *Engine) havocCells(st *State, base T, t types.Type, key string) {
 func (e *Engine) havocArrayFields(st *State, base T, t types.Type) {
 	switch u := under(t).(type) {
 	case *types.Array:
-		st.Mem = e.name("Mem", Sto(st.Mem, base, e.fresh("havoc_arr", SArr)))
+		e.memWrite(st, base, e.fresh("havoc_arr", SArr), "a modifies target")
 	case *types.Struct:
 		off := 0
 		for i := 0; i < u.NumFields(); i++ {
@@ -1091,7 +1114,7 @@ func (e *Engine) evalSpecHelper(st *State, call *ast.CallExpr, name string) Valu
 			e.fail(call, "isErr needs an interface value")
 		}
 		return BoolV{Ne(iv.ref, I(0))}
-	case "ghost", "ghostb":
+	case "ghost", "ghostb", "ghostu64", "ghosts":
 		cv := e.constOf(call.Args[0])
 		if cv == nil {
 			e.fail(call, "ghost needs a constant name")
@@ -1120,6 +1143,13 @@ func (e *Engine) evalSpecHelper(st *State, call *ast.CallExpr, name string) Valu
 		if name == "ghostb" {
 			return BoolV{r}
 		}
+		if name == "ghosts" {
+			e.ghostRangeAxiom(gname, len(argTs), "str")
+			return StrV{r}
+		}
+		if name == "ghostu64" {
+			e.ghostRangeAxiom(gname, len(argTs), "u64")
+		}
 		return IntV{r}
 	case "unchanged":
 		// unchanged(x): value of x equals old(x) (for byte slices: same contents)
@@ -1139,6 +1169,10 @@ func (e *Engine) evalSpecHelper(st *State, call *ast.CallExpr, name string) Valu
 		}
 	case "pure":
 		return e.eval(st, call.Args[0])
+	case "sbyteAt":
+		bo := e.bytesOperand(st, call.Args[0])
+		i := e.asInt(e.eval(st, call.Args[1]), call)
+		return IntV{Sel(bo.arr, Add(bo.off, i))}
 	case "b2i":
 		return IntV{B2I(e.asBool(e.eval(st, call.Args[0]), call))}
 	case "has":
@@ -1169,6 +1203,27 @@ func (e *Engine) evalSpecHelper(st *State, call *ast.CallExpr, name string) Valu
 	}
 	e.fail(call, "unknown spec helper %s", name)
 	return nil
+}
+
+func (e *Engine) ghostRangeAxiom(gname string, n int, kind string) {
+	key := "axiom:" + gname
+	if e.assumptions[key] || n == 0 {
+		return
+	}
+	e.assumptions[key] = true
+	var vars []string
+	var args []T
+	for i := 0; i < n; i++ {
+		v := fmt.Sprintf("a%d", i)
+		vars = append(vars, v)
+		args = append(args, T{v, SInt})
+	}
+	t := app(SInt, gname, args...)
+	if kind == "str" {
+		e.assumeGlobal(Forall(vars, Ge(e.slen(t), I(0))), "ghost string observer")
+	} else {
+		e.assumeGlobal(Forall(vars, rangeFact(t, types.Typ[types.Uint64])), "ghost uint64 observer")
+	}
 }
 
 func (e *Engine) ghostMapAxiom(gname string, n int) {
